@@ -1,29 +1,83 @@
-//! C31 replay: expanding the paths of a configuration must never panic.
-//! args: the path strings to put into `workspace.workspaceRoots` (default: "~" and "~é").
-//! exit 1 = `Emmyrc::pre_process_emmyrc` panicked on one of them.
-use emmylua_code_analysis::Emmyrc;
-use std::path::Path;
+//! C31 replay / bounded witness search: loading any configuration and expanding its paths never panics.
+//!   replay [paths...]     expand the given path strings (default "~", "~é") via Emmyrc::pre_process_emmyrc
+//!   replay search         path strings from a small alphabet in every path-bearing setting, and generated
+//!                         config FILES (JSON of every top-level shape, odd keys, dotted/nested collisions, Lua
+//!                         configs) through load_configs; prints "FOUND hex=<input>" and exits 1 on the first panic
+//! Decides nothing: a hit is a concrete configuration on which the real loader panics.
+use emmylua_code_analysis::{Emmyrc, load_configs};
+use std::path::{Path, PathBuf};
 
-fn main() {
-    let mut paths: Vec<String> = std::env::args().skip(1).collect();
-    if paths.is_empty() {
-        paths = vec!["~".to_string(), "~é".to_string()];
-    }
-    let mut bad = 0;
-    for p in paths {
+fn hex(s: &str) -> String { s.bytes().map(|b| format!("{b:02x}")).collect() }
+
+fn expand_ok(p: &str) -> bool {
+    let p = p.to_string();
+    std::panic::catch_unwind(move || {
         let mut rc = Emmyrc::default();
         rc.workspace.workspace_roots = vec![p.clone()];
-        let r = std::panic::catch_unwind(move || {
-            rc.pre_process_emmyrc(Path::new("/vp_c31_workspace"));
-            rc.workspace.workspace_roots
-        });
-        match r {
-            Ok(v) => println!("{p:?} -> {v:?}"),
-            Err(_) => {
-                println!("{p:?} -> PANIC in pre_process_emmyrc");
-                bad += 1;
-            }
+        rc.workspace.ignore_dir = vec![p.clone()];
+        rc.resource.paths = vec![p.clone()];
+        let lib = serde_json::json!({"workspace": {"library": [p.clone(), {"path": p.clone(), "ignoreDir": [p.clone()], "ignoreGlobs": []}], "packages": [p.clone()]}});
+        if let Ok(extra) = serde_json::from_value::<Emmyrc>(lib) {
+            rc.workspace.library = extra.workspace.library;
+            rc.workspace.packages = extra.workspace.packages;
         }
+        rc.pre_process_emmyrc(Path::new("/vp_c31_workspace"));
+    }).is_ok()
+}
+
+fn load_ok(dir: &Path, files: &[(&str, &str)]) -> bool {
+    let mut paths: Vec<PathBuf> = Vec::new();
+    for (name, content) in files {
+        let p = dir.join(name);
+        std::fs::write(&p, content).expect("write config");
+        paths.push(p);
+    }
+    let r = std::panic::catch_unwind(move || { let _ = load_configs(paths, None); }).is_ok();
+    r
+}
+
+fn main() {
+    std::panic::set_hook(Box::new(|_| {}));
+    let a: Vec<String> = std::env::args().skip(1).collect();
+    if a.first().map(|s| s.as_str()) == Some("search") {
+        let atoms = ["", "~", "~/", "~x", "~é", "./", "./a", ".", "..", "/abs", "a/b", "é", "$", "$VP_UNSET_VAR_C31", "${VP_UNSET_VAR_C31}",
+            "{env:VP_UNSET_VAR_C31}", "${env:VP_UNSET_VAR_C31}", "{workspaceFolder}", "${workspaceFolder}/x", "{luarocks}", "{}", "{", "}", "~{env:VP_UNSET_VAR_C31}", "\u{1F600}", "\\", "C:\\x"];
+        let mut n = 0;
+        for x in atoms { for y in ["", "~", "é", "$", "/"] {
+            let p = format!("{x}{y}");
+            n += 1;
+            if !expand_ok(&p) { println!("FOUND hex={} path {p:?}: PANIC in Emmyrc::pre_process_emmyrc", hex(&p)); std::process::exit(1); }
+        } }
+        let dir = std::env::temp_dir().join(format!("vp_c31_{}", std::process::id()));
+        std::fs::create_dir_all(&dir).expect("tmp dir");
+        let jsons = ["null", "42", "\"x\"", "[]", "{}", "true", "{\"\": 1}", "{\".\": 1}", "{\"..\": 1}", "{\"a..b\": 1}", "{\"a.\": 1}", "{\".a\": 1}",
+            "{\"diagnostics.enable\": false}", "{\"diagnostics\": {\"enable\": true}, \"diagnostics.enable\": false}",
+            "{\"runtime.version\": \"Lua5.1\", \"runtime\": 3}", "{\"workspace.library\": [\"~\"], \"workspace\": null}",
+            "{\"diagnostics\": 1}", "{\"diagnostics\": {\"disable\": \"x\"}}", "{\"diagnostics\": {\"severity\": {\"x\": \"y\"}}}",
+            "{\"runtime\": {\"version\": 5}}", "not json at all", "{\"unterminated\": ", "\u{feff}{}"];
+        for (i, j) in jsons.iter().enumerate() {
+            n += 1;
+            if !load_ok(&dir, &[(".luarc.json", j)]) { println!("FOUND hex={} config {j:?} as .luarc.json: PANIC in load_configs", hex(j)); std::process::exit(1); }
+            if !load_ok(&dir, &[(".emmyrc.json", "{\"diagnostics\": {\"enable\": true}}"), (".luarc.json", j)]) {
+                println!("FOUND hex={} config {j:?} merged after a valid .emmyrc.json: PANIC in load_configs", hex(j)); std::process::exit(1);
+            }
+            let _ = i;
+        }
+        let luas = ["return {}", "return 1", "print()", "print(1, nil)\nreturn {}", "error('x')", "return { diagnostics = { enable = false } }", "local t = {} t.a = t return t", "return nil", "", "while false do end return {}"];
+        for l in luas {
+            n += 1;
+            if !load_ok(&dir, &[(".emmyrc.lua", l)]) { println!("FOUND hex={} lua config {l:?}: PANIC in load_configs", hex(l)); std::process::exit(1); }
+        }
+        let _ = std::fs::remove_dir_all(&dir);
+        println!("no panic among {n} generated path strings / config files");
+        return;
+    }
+    let mut paths = a;
+    if paths.first().map(|s| s.as_str()) == Some("hex") { paths = vec![String::from_utf8((0..paths[1].len() / 2).map(|i| u8::from_str_radix(&paths[1][2 * i..2 * i + 2], 16).unwrap()).collect()).unwrap()]; }
+    if paths.is_empty() { paths = vec!["~".to_string(), "~é".to_string()]; }
+    let mut bad = 0;
+    for p in paths {
+        if expand_ok(&p) { println!("{p:?}: expanded without panic"); } else { println!("{p:?} -> PANIC in pre_process_emmyrc"); bad += 1; }
     }
     std::process::exit(if bad > 0 { 1 } else { 0 });
 }
